@@ -173,7 +173,7 @@ fn readhalf_more_exec(len: usize, mode: usize, ctx: &WorkerCtx) -> ExecResult {
         let got: Arc<Mutex<Vec<Result<String, String>>>> = Arc::new(Mutex::new(vec![]));
         let g2 = got.clone();
         let mut conn = cw.conn;
-        let timeout = if mode == 3 { std::time::Duration::from_secs(5) } else { std::time::Duration::from_secs(1000) };
+        let timeout = if mode == 3 || mode == 5 { std::time::Duration::from_secs(5) } else { std::time::Duration::from_secs(1000) };
         tokio::spawn(async move {
             let mut rh = conn.take_read_half().expect("read half");
             loop {
@@ -194,6 +194,26 @@ fn readhalf_more_exec(len: usize, mode: usize, ctx: &WorkerCtx) -> ExecResult {
             let all = got.lock().unwrap().clone();
             let shape_ok = all.len() == 4 && all[0] == Ok(want(1)) && all[1].is_err() && all[2] == Ok(want(2)) && all[3] == Ok(want(3));
             if !shape_ok { res.violations.push(("a refused frame on the read-half path takes later frames with it".into(), json!({"refused_frame_length": len, "results": format!("{:?}", all)}))); }
+        } else if mode == 5 {
+            // the peer is quiet for a minute (several times the I/O timeout), then a frame arrives in `len` pieces with no
+            // time passing in between: waiting for a frame to begin is not an I/O operation in progress
+            for _ in 0..6 { tokio::time::advance(std::time::Duration::from_secs(10)).await; cw.w.settle(&mut cw.peer, &probe).await; }
+            let f = msg(1);
+            let pieces = len.max(2);
+            for k in 0..pieces { let (a, b) = (k * f.len() / pieces, (k + 1) * f.len() / pieces); cw.peer.send(&f[a..b]); cw.w.settle(&mut cw.peer, &probe).await; }
+            cw.peer.send(&msg(2));
+            cw.w.settle(&mut cw.peer, &probe).await;
+            let all = got.lock().unwrap().clone();
+            if all != vec![Ok(want(1)), Ok(want(2))] { res.violations.push(("a frame that arrives in several reads after a quiet period is not delivered".into(), json!({"pieces": pieces, "results": format!("{:?}", all)}))); }
+        } else if mode == 6 {
+            // a length prefix above the connection's limit is refused on sight: no body is awaited
+            cw.peer.send(&msg(1));
+            cw.peer.send(&(len as u32).to_be_bytes());
+            cw.w.settle(&mut cw.peer, &probe).await;
+            for _ in 0..20 { if got.lock().unwrap().len() >= 2 { break; } cw.w.settle(&mut cw.peer, &probe).await; }
+            let all = got.lock().unwrap().clone();
+            let ok = all.len() == 2 && all[0] == Ok(want(1)) && matches!(&all[1], Err(e) if e.to_lowercase().contains("large") || e.to_lowercase().contains("size") || e.to_lowercase().contains("exceed"));
+            if !ok { res.violations.push(("a declared length above the connection's limit is not refused as soon as the prefix has arrived".into(), json!({"declared_length": len, "results": format!("{:?}", all)}))); }
         } else {
             let f = msg(1);
             let cut = 4 + (f.len() - 4) / 2;
@@ -258,7 +278,8 @@ pub fn run(rep: &Report) -> Value {
     let st_h: Stats = for_all(rep, "frames coalesced with the handshake acknowledgement", &hand, |c, ctx| handover_exec(c, ctx));
     let wlens: Vec<Vec<usize>> = vec![vec![0, 1, 2, 0, 255, 256], vec![65_535, 65_536, 65_537, 3], vec![200_000, 0, 1 << 20, 5], vec![70_000, 70_001]];
     let st_w: Stats = for_all(rep, "send_raw against the one-shot framing", &wlens, |c, ctx| send_raw_exec(c, ctx));
-    let big: Vec<(usize, usize)> = vec![(65_535, 0), (65_536, 0), (65_537, 0), (200_000, 0), (1 << 20, 0), (4, 1), (50, 1), (70_000, 1), (3, 2), (8, 2), (300, 2), (70_000, 2), (0, 3), (0, 4)];
+    let big: Vec<(usize, usize)> = vec![(65_535, 0), (65_536, 0), (65_537, 0), (200_000, 0), (1 << 20, 0), (4, 1), (50, 1), (70_000, 1), (3, 2), (8, 2), (300, 2), (70_000, 2), (0, 3), (0, 4), (2, 5), (3, 5), (9, 5),
+        ((64 << 20) + 1, 6), (100 << 20, 6), (200 << 20, 6), (256 << 20, 6), ((256 << 20) + 1, 6), (u32::MAX as usize, 6)];
     let st_b: Stats = for_all(rep, "large frames after the handshake; end of stream inside a frame on the read half", &big, |c, ctx| recv_big_exec(c, ctx));
     json!({
         "large_frame_executions": st_b.executions,
